@@ -8,8 +8,16 @@ pub struct HttpErrorResponseBody { pub request_id: String, pub error_code: Optio
 
 // ---- TRUSTED ----
 pub trait Serialize {}
-/// #[derive(Serialize)] on NoHeaders
+/// #[derive(Serialize)] on NoHeaders / RedirectHeaders
 impl Serialize for NoHeaders {}
+impl Serialize for RedirectHeaders {}
+/// the three redirect status kinds implement HttpCodedResponse (handler.rs)
+impl From<HttpResponseFoundStatus> for Result<Response, HttpError> { #[verifier::external_body] fn from(_x: HttpResponseFoundStatus) -> Self { unimplemented!() } }
+impl From<HttpResponseSeeOtherStatus> for Result<Response, HttpError> { #[verifier::external_body] fn from(_x: HttpResponseSeeOtherStatus) -> Self { unimplemented!() } }
+impl From<HttpResponseTemporaryRedirectStatus> for Result<Response, HttpError> { #[verifier::external_body] fn from(_x: HttpResponseTemporaryRedirectStatus) -> Self { unimplemented!() } }
+impl HttpCodedResponse for HttpResponseFoundStatus {}
+impl HttpCodedResponse for HttpResponseSeeOtherStatus {}
+impl HttpCodedResponse for HttpResponseTemporaryRedirectStatus {}
 /// HttpCodedResponse: a typed response kind; all that matters here is that it converts into a response
 pub trait HttpCodedResponse: Into<Result<Response, HttpError>> {}
 impl Default for HeaderMap {
